@@ -215,7 +215,7 @@ func vfC19QueryKeys(docID string) string {
 // vfC19BlankObjectShape: the body is an empty object, the path stores the client's bytes verbatim
 // (import, BLIP) and the style puts whitespace between the braces.
 func vfC19BlankObjectShape(path string, body *vfC19Val, st *vfC19Style) bool {
-	if len(body.Keys) != 0 || !(path == "import" || strings.HasPrefix(path, "blip")) {
+	if len(body.Keys) != 0 || !(path == "import" || path == "autoimport" || strings.HasPrefix(path, "blip")) {
 		return false
 	}
 	probe := *st
